@@ -95,6 +95,11 @@ def make_pool():
     # collections the CALLER owns: lists of graphs / of diagrams kept between calls
     P["GL"] = [P["G1"].toarray().astype(np.float64), (P["G2"] + P["G2"].T).toarray().astype(np.int64), P["G1"].copy()]
     P["DL"] = [P["D1"].copy(), P["D2"].copy(), P["Dinf"].copy()]
+    # estimators the caller keeps: an unfitted landscaper, a CSR graph that stores some explicit zeros
+    P["plx"] = PersistenceLandscaper(hom_deg=0, num_steps=7)
+    Z = sps.csr_matrix(P["G1"], copy=True).astype(np.float64)
+    Z = sps.csr_matrix((np.concatenate([Z.data, [0.0, 0.0]]), np.concatenate([Z.indices, [3, 5]]), np.concatenate([Z.indptr[:-1], [Z.indptr[-1] + 2]])), shape=Z.shape)
+    P["G1z"] = Z
     P["Dinfl"] = [[0.0, 4.0], [1.0, 3.0], [2.0, 6.0], [0.0, float("inf")]]       # nested lists, the essential class last (ripser's H0 order)
     P["vals"] = np.array([[0.0, 1.0, -2.0, 3.0, -1.0, 0.5, 2.0, -0.5, 0.0], [0.0, 0.5, -1.0, 1.0, 0.0, 0.0, 1.0, 0.0, 0.0]])
     P["xs"] = np.linspace(-2.0, 2.0, 9)
@@ -212,6 +217,15 @@ def _(P, v):
     out = [persistent_entropy(P["DL"]), list(death_vector(P["DL"])), list(P["pim"].transform(P["DL"][:2])),
            PersistenceLandscaper(hom_deg=1, num_steps=5).fit_transform(P["DL"]), PersLandscapeExact(dgms=P["DL"], hom_deg=1), dig(a)]
     plt.close("all"); return out
+@ep("unfitted landscaper kept by the caller: transform, then transform of other data")
+def _(P, v):
+    a = P["plx"].transform([P["D1"]])
+    b = P["plx"].transform([P["D2"]])
+    return [a, b]
+@ep("gromov_hausdorff on a CSR matrix with explicitly stored zeros")
+def _(P, v):
+    np.random.seed(18)
+    return list(persim.gromov_hausdorff(P["G1z"], P["G2"]))
 @ep("landscapes from nested lists with a trailing essential class")
 def _(P, v):
     with warnings.catch_warnings():
